@@ -856,7 +856,8 @@ def to_quarter_tempo(unit, tempo):
     """
     dots = unit.count(".")
     unit = unit.strip().rstrip(".")
-    return float(tempo * DOT_MULTIPLIERS[dots] * LABEL_DURS[unit])
+    # float() first: an int8 / uint8 tempo times 16 (long), 8, 4 wraps around
+    return float(tempo) * DOT_MULTIPLIERS[dots] * LABEL_DURS[unit]
 
 
 def format_symbolic_duration(symbolic_dur):
